@@ -62,3 +62,40 @@ REG.add(Contract(f"{NG}._add_edges_within_module_hierarchy", module=M_NX, kind="
                                 invariant=[e.replace("%K%", "idx").replace("%XS%", "all_modules") for e in _AEH_STATE])},
                  properties=["C02", "C04", "C09", "C13"]))
 
+# ---------------------------------------------------------------- _add_all_modules_as_nodes (default view)
+# get_parent_modules is known here by its proved Bag contract (element set = strict dotted ancestors); the ORDER of that list is not (a Seq-valued
+# contract of the character loop is beyond both solvers, see notes/ctr-graph.md), so the parents reach _add_edges_within_module_hierarchy as SOME
+# sequence with these elements and the edge claims below do not say WHICH adjacent pairs are linked.
+# In the default view (names opaque) the dotted-ancestor relation is the uninterpreted name_anc; get_parent_modules is used through a twin of its
+# string-view contract with literally the same text over Node / name_anc (verified in the string view, where Node is String and name_anc(a, b) is
+# b.startswith(a + '.')) -- the same two-view arrangement as for the 'anything' de-duplication (c_rule_builder.py).
+M_TY = "pytestarch.eval_structure.types"
+REG.contracts["get_parent_modules"].alt = REG.add(Contract(
+    "get_parent_modules@node", module=M_TY, qualname="get_parent_modules", view="string", params=dict(module="Node"), returns="Bag[Node]",
+    ensures=["forall(Node, lambda p: (p in result) == name_anc(p, module))"],
+    locals=dict(parent_modules="Bag[Node]", parent="Str"),
+    loops={0: dict(sig="for char in module", invariant=[
+        "parent == module[0:idx]",
+        "forall(Node, lambda p: (p in parent_modules) == (name_anc(p, module) and len(p) < idx))"])},
+    note="twin of 'get_parent_modules' for callers that keep names opaque", properties=["C02", "C04", "C09"]))
+REG.macro("anc_or_self", ["p", "m"], "p == m or name_anc(p, m)")
+# chain_node(lim, M, x): x is the flattened name of a module of M or of one of its dotted ancestors
+REG.macro("chain_node", ["lim", "M", "x"], "exists(Node, Node, lambda m, p: (m in M) and anc_or_self(p, m) and x == flat(lim, p))")
+# chain_pair(lim, M, a, b): a != b are the flattened names of a strict dotted ancestor u and of an ancestor-or-self v of ONE module of M
+REG.macro("chain_pair", ["lim", "M", "a", "b"],
+          "a != b and exists(Node, lambda m: (m in M) and exists(Node, lambda u: name_anc(u, m) and a == flat(lim, u)) and exists(Node, lambda v: anc_or_self(v, m) and b == flat(lim, v)))")
+_AAM = [
+    "self._level_limit == old(self)._level_limit", "self._all_modules == old(self)._all_modules",
+    "forall(Node, lambda x: implies(x in self._graph.nodes, (x in old(self)._graph.nodes) or chain_node(old(self)._level_limit, %M%, x)))",
+    "forall(Node, lambda x: implies((x in old(self)._graph.nodes) or chain_node(old(self)._level_limit, %M%, x), x in self._graph.nodes))",
+    "forall(Node, Node, lambda a, b: implies((a, b) in old(self)._graph.edges, (a, b) in self._graph.edges))",
+    "forall(Node, Node, lambda a, b: implies((a, b) in old(self)._graph.inh, (a, b) in self._graph.inh))",
+    "forall(Node, Node, lambda a, b: implies(((a, b) in self._graph.edges) and not ((a, b) in old(self)._graph.edges), chain_pair(old(self)._level_limit, %M%, a, b)))",
+    "forall(Node, Node, lambda a, b: implies(((a, b) in self._graph.edges) and not ((a, b) in old(self)._graph.edges), (a in self._graph.nodes) and (b in self._graph.nodes)))",
+    "forall(Node, Node, lambda a, b: implies(((a, b) in self._graph.inh) and not ((a, b) in old(self)._graph.inh), chain_pair(old(self)._level_limit, %M%, a, b) and ((a, b) in self._graph.edges)))",
+    "forall(Node, Node, lambda a, b: implies(((a, b) in self._graph.edges) and not ((a, b) in old(self)._graph.edges), (a, b) in self._graph.inh))",
+]
+REG.add(Contract(f"{NG}._add_all_modules_as_nodes", module=M_NX, kind="method", params=dict(self=NG), returns="None", modifies=["self"],
+                 ensures=[e.replace("%M%", "old(self)._all_modules") for e in _AAM],
+                 loops={0: dict(sig="for module in self._all_modules", invariant=[e.replace("%M%", "seen") for e in _AAM])},
+                 properties=["C02", "C04", "C09", "C13"]))
